@@ -12,7 +12,7 @@ CORPUS = [
     "\x1b]0;title\x07rest", "\x1b[1", "\x1b[", "\x1b", "tail\x1b", "\x1b[31", "\x1b[31;", "\x1b[;31m", "a\x1b[31mb\x1b[4", "\x1b[\x1b[31mq",
     "\x1b[3\x1b[1mz", "\x1bMup", "\x1b7save\x1b8", "\x1b[4:3mcurly", "\x1b[38;2;1;2;3mrgb\x1b[m", "\x9b31mc1\x9b0m", "\x1b[1 qcursor",
     "def \x1b[34mf\x1b[39m(\x1b[33mx\x1b[39m):\n    \x1b[35mreturn\x1b[39m x\n", "\x1b[31m\x1b[44mhey\x1b[49m\x1b[39m", "plain text only", "",
-    "\x1b[999999999mx", "\x1b[1;2;3;4;5;7mz\x1b[m", "\x1b[Hhome", "\x1b[3Ax\x1b[2By\x1b[5Cz\x1b[1D", "x\x1b[0Ky\x1b[1Jz",
+    "\x1b[999999999mx", "out\x1b[" + "7" * 4301 + "Aput\n", "a\x1b[" + "9" * 300 + "mb", "\x1b[1;2;3;4;5;7mz\x1b[m", "\x1b[Hhome", "\x1b[3Ax\x1b[2By\x1b[5Cz\x1b[1D", "x\x1b[0Ky\x1b[1Jz",
 ]
 
 
